@@ -280,3 +280,18 @@ func (l *LogTap) Print(v ...interface{}) { l.Lines = append(l.Lines, fmt.Sprint(
 func (l *LogTap) Printf(format string, v ...interface{}) {
 	l.Lines = append(l.Lines, fmt.Sprintf(format, v...))
 }
+
+// reusedBuf returns the bytes of b in a long-lived buffer of its own for `name`: consecutive calls hand the library the same
+// memory with other content, as the Demuxer's pooled parse buffer does. A result may depend on the bytes of the call only.
+func reusedBuf(name string, b []byte) []byte {
+	sb := reusedBufs[name]
+	if cap(sb) < len(b) {
+		sb = make([]byte, 0, 2*len(b)+64)
+		reusedBufs[name] = sb
+	}
+	sb = sb[:len(b)]
+	copy(sb, b)
+	return sb
+}
+
+var reusedBufs = map[string][]byte{}
